@@ -189,6 +189,7 @@ Proof.
   intros p Hp. unfold h0 in Hp.
   repeat (destruct Hp as [<-|Hp]; [apply scoh0; cbn; tauto|]). destruct Hp.
 Qed.
+Print Assumptions C01_history_hypotheses_satisfiable.
 
 (** D19: the cached coalesce over a switch whose dispatch has a default.  {A:1}: member 1 reads
     A = 1, misses B, is passed over; 6 is stored under the EMPTY fingerprint.  {}: served 6 from
@@ -231,3 +232,26 @@ Proof.
   vm_compute. repeat split; congruence.
 Qed.
 Print Assumptions C01_transparency_refuted_D4.
+
+(** D24: the effects switch LABREA.EFFECTS.DISABLED is consulted by every Computation and is part
+    of no fingerprint.  A dataset-shaped node whose effect raises: under {LABREA.EFFECTS.DISABLED:
+    true} the effect is skipped and 1 is stored (fingerprint []); under {} the stored 1 is served
+    although the cache-free evaluation fails in the effect.  Both dictionaries are clean
+    ([clean_at]) — this is why the history theorem fixes one value [esw] of the switch along the
+    history and the second-sentence theorems ask for [esw_stable] / equal switches. *)
+Definition u_raise : N -> list value -> cres := fun f args => if N.eqb f 101 then CRaise 9 else COk (VT f args).
+Definition e_d24 : expr := EComp (EValue (VJ (JInt 1))) [EValue (VF 101 [] [])].
+Definition o_d24 : dict := [(SName A_LABREA, JObj [(SName A_EFFECTS, JObj [(SName A_DISABLED, JBool true)])])].
+
+Theorem C01_transparency_refuted_effects_switch_D24 :
+  exists u e o o',
+    frag e = true /\ clean_at u 10 e o = true /\ clean_at u 10 e o' = true /\
+    let '(r1, s1, _) := eval store mem_find mem_store cfg0 u 10 (clean_at u 10) (ECached (CMem 1) e) o [] in
+    let '(r2, _, _) := eval store mem_find mem_store cfg0 u 10 (clean_at u 10) (ECached (CMem 1) e) o' s1 in
+    r1 = Ok (VJ (JInt 1)) /\ r2 = Ok (VJ (JInt 1)) /\
+    fst (fst (evalN u 10 e o' tt)) = Err (CUser 9) true /\
+    effects_opt_off o = true /\ effects_opt_off o' = false.
+Proof.
+  exists u_raise, e_d24, o_d24, []. vm_compute. repeat split; congruence.
+Qed.
+Print Assumptions C01_transparency_refuted_effects_switch_D24.
